@@ -672,6 +672,11 @@ pub fn run_microlp_direct(m: &GenModel, cfg: &RunCfg) -> DirectRun {
             d => p.add_var(*c, d.bounds_f64()),
         })
         .collect();
+    // rooc carries a non-zero objective offset on a column fixed at 1 (fix 0f41189); mirror
+    // it so that this direct run is the same execution, read for read
+    if m.offset != 0.0 {
+        p.add_var(m.offset, (1.0, 1.0));
+    }
     for r in &m.rows {
         let lhs: Vec<_> = vars.iter().zip(&r.coefs).map(|(v, c)| (*v, *c)).collect();
         let op = match r.cmp {
